@@ -249,6 +249,9 @@ def const(node, env=None):
     if isinstance(node, ast.Name):
         if node.id in env:
             return env[node.id]
+        if node.id in ('int', 'str', 'bytes', 'bytearray', 'bool', 'tuple', 'list', 'dict'):
+            return {'int': int, 'str': str, 'bytes': bytes, 'bytearray': bytearray, 'bool': bool, 'tuple': tuple, 'list': list,
+                    'dict': dict}[node.id]
         raise NotConst(node.id)
     if isinstance(node, ast.Attribute):
         t = norm(node)
@@ -301,7 +304,7 @@ def const(node, env=None):
         args = [const(a, env) for a in node.args]
         table = {'range': range, 'bytearray': bytearray, 'bytes': bytes, 'len': len, 'int': int, 'tuple': tuple,
                  'list': list, 'min': min, 'max': max, 'sum': sum, 'frozenset': frozenset, 'set': set,
-                 'bool': bool, 'pow': pow, 'abs': abs}
+                 'bool': bool, 'pow': pow, 'abs': abs, 'type': type}
         if fn in table:
             return table[fn](*args)
     if isinstance(node, ast.Call) and norm(node.func) in ('pack', 'struct.pack', 'unpack', 'struct.unpack') and not node.keywords:
